@@ -214,6 +214,16 @@ class TermAlg:
                 return ident
             if len(args) == 1:
                 return args[0]
+        if name in ("and", "or"):
+            unit = name == "and"         # and: True is the identity, or: False
+            rest = [a for a in args if not (is_plain_const(a) and bool(a) == unit)]
+            if any(is_plain_const(a) and bool(a) != unit for a in rest):
+                return not unit          # absorbing element
+            if not rest:
+                return unit
+            if len(rest) == 1:
+                return rest[0]
+            args = rest
         if name in _COMM:
             keyed = sorted(args, key=skel)
             args = keyed
@@ -258,6 +268,8 @@ class TermAlg:
     def call(self, fname, *args):
         if fname == "zero":
             return 0       # pytato.zero(x): documented to be zero whatever x is (keeps a dead reference alive)
+        if fname == "isnan" and len(args) == 1 and is_plain_const(args[0]):
+            return args[0] != args[0]
         return ("call", fname, *args)
 
     def cast(self, dtype, x):
